@@ -120,6 +120,20 @@ Theorem C04_terminal_first_driver_programs : forall cfgs msgs rounds fuel order 
     (trace_of (run_dops rounds fuel order (init cfgs msgs) ops)) = true.
 Proof. exact terminal_first_sound_dops. Qed.
 
+(* ActorStarted is delivered before the terminal event: under every schedule, whenever supervisor s starts
+   to handle a terminal event (ActorTerminated / ActorFailed) about a child c spawn-linked to it whose
+   post_start had returned Ok, s has already started to handle ActorStarted(c).  (The supervision queue is
+   FIFO and ActorStarted is pushed in the step that logs post_start's Ok; an ActorStarted that is dequeued and
+   loses the race against a kill leaves a supervisor that never handles anything again.) *)
+Theorem C04_started_first_sound : forall cfgs msgs ls,
+  check_C04_started_first (map c_link cfgs) (trace_of (run (init cfgs msgs) ls)) = true.
+Proof. exact started_first_sound. Qed.
+
+Theorem C04_started_first_driver_programs : forall cfgs msgs rounds fuel order ops,
+  check_C04_started_first (map c_link cfgs)
+    (trace_of (run_dops rounds fuel order (init cfgs msgs) ops)) = true.
+Proof. exact started_first_sound_dops. Qed.
+
 (* a failing callback never escapes the actor: in EVERY reachable world (settled or not) an actor
    one of whose callbacks after pre_start returned Err or panicked has a join handle that completed
    normally (the TJoin is logged in the very step of the failure) *)
@@ -173,6 +187,8 @@ Check (C04_join_cancel_sound : forall cfgs msgs ls n,
 
 Check (C04_terminal_first_sound : forall cfgs msgs ls,
   check_C04_terminal_first (map c_link cfgs) (trace_of (run (init cfgs msgs) ls)) = true).
+Check (C04_started_first_sound : forall cfgs msgs ls,
+  check_C04_started_first (map c_link cfgs) (trace_of (run (init cfgs msgs) ls)) = true).
 Check (C04_join_sound : forall cfgs msgs ls n,
   check_C04_join n (trace_of (run (init cfgs msgs) ls)) = true).
 Check (C04_complete_sound_settled : forall cfgs msgs ls,
@@ -290,6 +306,14 @@ Example local_world :
   /\ check_C04 (map c_link tlw_cfgs) (map c_local tlw_cfgs) t = true.
 Proof. vm_compute. repeat split; reflexivity. Qed.
 
+(* the started-first oracle is not vacuous *)
+Example reject_terminal_before_started :
+  check_C04_started_first [None; Some 0]
+    [TExit 1 PostStart ROk; TKillReq 1; TEnter 0 (Sup (STerminated 1 false (Some 0)))] = false
+  /\ check_C04_started_first [None; Some 0]
+    [TExit 1 PostStart ROk; TEnter 0 (Sup (SStarted 1)); TKillReq 1; TEnter 0 (Sup (STerminated 1 false (Some 0)))] = true.
+Proof. split; reflexivity. Qed.
+
 Print Assumptions C04_oracle_sound.
 Print Assumptions C04_driver_programs.
 Print Assumptions C04_terminal_at_most_once.
@@ -300,6 +324,8 @@ Print Assumptions C04_prestart_failure_silent.
 Print Assumptions C04_containment.
 Print Assumptions C04_terminal_first_sound.
 Print Assumptions C04_terminal_first_driver_programs.
+Print Assumptions C04_started_first_sound.
+Print Assumptions C04_started_first_driver_programs.
 Print Assumptions C04_join_sound.
 Print Assumptions C04_join_driver_programs.
 Print Assumptions C04_complete_sound_settled.
